@@ -39,7 +39,7 @@ def stepImg (op impl : String) : String :=
       let pixKnown := bit 14 && xp > 0 && yp > 0
       let mcls := match newImageGen (detected a.sixel a.kitty pixKnown) with | some c => c.name | none => "unknown"
       let mc := match newImageGen (detected a.sixel a.kitty pixKnown) with
-        | some c => expectedEsc c (fits cw ch w1w w1h || fits cw ch w3w w3h)
+        | some c => expectedEsc c (fits cw ch w1w w1h || fits cw ch w3w w3h) cw ch
         | none => "unknown"
       -- the implementation side: lex every phase
       let lexed : List (String × Option (List Tok)) := phases.map fun ph =>
